@@ -351,7 +351,8 @@ def bs4_tree(content):
 
 # ---- known findings, recognised by the FAILURE ----------------------------------------------------------------------
 def _is_ws_text(it):
-    return it[0] == "t" and all(chr(c) in " \t\r\n\x0c" for c, _ in it[1])
+    # Python white space: U+2028, U+00A0 ... after a wrap are dropped with the indentation like blanks
+    return it[0] == "t" and all(chr(c).isspace() for c, _ in it[1])
 
 
 def glue_alt(items, sami=False):
